@@ -41,7 +41,7 @@ for seed,props in sorted(exp.items()):
 for r in sorted(os.listdir('selftest/refactors')):
     print('refactor',r,os.path.abspath('selftest/refactors/%s/patch.diff'%r),'silent')
 PY
-} | xargs -P 8 -L 1 bash -c 'variant "$0" "$1" "$2" "$3"' > "$BASE/results.txt"
+} | xargs -P 14 -L 1 bash -c 'variant "$0" "$1" "$2" "$3"' > "$BASE/results.txt"
 sort "$BASE/results.txt" | sed 's/^/  selfval: /'
 python3 - "$EVD/$ID.json" "$BASE/results.txt" <<'PY'
 import json,sys
